@@ -9,6 +9,7 @@ mod dates;
 mod fx;
 mod duals;
 mod hols;
+mod linalg;
 mod rng;
 
 use std::io::{BufRead, BufWriter, Write};
@@ -62,6 +63,9 @@ fn step(st: &mut State, toks: &[&str]) -> String {
     if let Some(a) = fx::step(&st.duals, &mut st.fx, toks) {
         return a;
     }
+    if let Some(a) = linalg::step(&st.duals, toks) {
+        return a;
+    }
     if let Some(a) = hols::step(&mut st.hols, toks) {
         return a;
     }
@@ -87,6 +91,7 @@ fn main() {
                 "C10" => fx::gen_c10(&mut out, thorough, seed),
                 "C11" => curves::gen_c11(&mut out, thorough, seed),
                 "C12" => curves::gen_c12(&mut out, thorough, seed),
+                "C13" => linalg::gen_c13(&mut out, thorough, seed),
                 "C17" => duals::gen_c17(&mut out, thorough, seed),
                 "C18" => duals::gen_c18(&mut out, thorough, seed),
                 "C19" => duals::gen_c19(&mut out, thorough, seed),
